@@ -126,6 +126,18 @@ CHECKS = {
         "note": "c2r transforms with a length-1 last axis and no explicit length are excluded (the references disagree among themselves there)",
         "technique": "property-based testing: differential against numpy.fft/scipy.fft; exact-rational label model for STFT",
     },
+    "C15": {
+        "text": "Generated phase arrays (ties, near-ties down to 2^-52 at counts to 2^52, lanes of different magnitude, mixed signs; 1-d/2-d) against exact "
+                "rational order: the six comparison operators vs Phase/number/Quantity in both orders; min/max/argmin/argmax/sort/argsort/ptp (methods and "
+                "np.* dispatch, any axis) must return a correct answer under the exact order and normalised Phases. Rendering (to_string with precision "
+                "0..25, alwayssign, format(), str(), arrays, imaginary) must be the exact value rounded to the digits shown; parsing of grammar-generated "
+                "decimal strings (no dot, empty parts, leading zeros, 30 digits, e/E/d/D exponents, j, blanks; str/array/bytes) to within 2^-52, real stays "
+                "real, and from_string(to_string(p)) == p. Exploration.",
+        "ref": "DESIGN.md section 4 C15",
+        "note": "pairs closer than 2^-52 but unequal are unconstrained; one open known finding K1 (default rendering 1.7e-16 instead of 1e-16 for one class of phases) "
+                "is reported as KNOWN-FINDING and checked against its own wider bound",
+        "technique": "property-based testing: Hypothesis + grammar-based string generation vs fractions/decimal oracle",
+    },
     "C16": {
         "text": "Constructor fuzzing of all six classes against a model of the documented contract: generated array shapes (valid / too few dims / wrong "
                 "fixed axis / empty sample / 0-d), 12 dtypes (allowed, safely castable, uncastable) on NumPy and Dask, and every metadata argument valid or "
